@@ -1051,6 +1051,8 @@ class Folder:
             return self._stdlib_hof(obj[1], name)
         if isinstance(obj, tuple) and len(obj) == 2 and obj[0] == 'pyfunc' and getattr(obj[1], '_sa_attrs', None) and name in obj[1]._sa_attrs:
             return ('pyfunc', obj[1]._sa_attrs[name])
+        if isinstance(obj, tuple) and len(obj) == 2 and obj[0] == 'pymodule' and obj[1] == 'operator' and name in ('attrgetter', 'itemgetter', 'methodcaller'):
+            return self._operator_getter(name)
         if isinstance(obj, tuple) and len(obj) == 2 and obj[0] == 'pymodule' and obj[1].split('.')[0] in PURE_MODULES:
             import importlib
             try:
@@ -2157,6 +2159,31 @@ class Folder:
             return obj
         raise Unsupported(f'constructor of {ci.name}')
 
+    def _getitem(self, base, idx):
+        sub = ast.Subscript(value=ast.Name(id='b', ctx=ast.Load()), slice=ast.Name(id='i', ctx=ast.Load()), ctx=ast.Load())
+        return self._eval(sub, {'b': base, 'i': idx}, self._cur_mod, None)
+
+    def _operator_getter(self, kind: str):
+        """operator.attrgetter / itemgetter / methodcaller over values of the subject (attribute and item access through the folder)."""
+        def attr_path(o, dotted):
+            for part in dotted.split('.'):
+                o = self._attr_or_prop(o, part)
+            return o
+        if kind == 'attrgetter':
+            def make(*names):
+                if not names or not all(isinstance(n, str) for n in names):
+                    raise FoldRaise('TypeError', 'attrgetter expected attribute names')
+                return ('pyfunc', (lambda o: attr_path(o, names[0])) if len(names) == 1 else (lambda o: tuple(attr_path(o, n) for n in names)))
+        elif kind == 'itemgetter':
+            def make(*items):
+                if not items:
+                    raise FoldRaise('TypeError', 'itemgetter expected 1 argument, got 0')
+                return ('pyfunc', (lambda o: self._getitem(o, items[0])) if len(items) == 1 else (lambda o: tuple(self._getitem(o, i) for i in items)))
+        else:
+            def make(name, *a, **k):
+                return ('pyfunc', lambda o: self._getattr_call(o, name, list(a), dict(k)))
+        return ('pyfunc', make)
+
     def _augop(self, op, cur, v):
         """cur <op>= v : in place for lists / sets / bytearrays / dicts (aliases see the change) and through __i<op>__ of an object of the
         subject, else the binary operator."""
@@ -2207,6 +2234,8 @@ class Folder:
                 return self._collections(r[2])
             if r[0] == 'external' and r[1] in ('itertools', 'functools'):
                 return self._stdlib_hof(r[1], r[2])
+            if r[0] == 'external' and r[1] == 'operator' and r[2] in ('attrgetter', 'itemgetter', 'methodcaller'):
+                return self._operator_getter(r[2])
             if r[0] == 'external' and r[1].split('.')[0] in PURE_MODULES:
                 import importlib
                 try:
